@@ -19,7 +19,7 @@ vars == <<l, limit, checked, cyc>>
 L == INSTANCE VMLimits WITH MaxItems <- 2048, MaxIntBits <- 256, MaxItemSize <- 131070, MaxInvoc <- 1024,
                             MaxTry <- 16, ObsSet <- {}, obs <- 0
 
-StepObs(e) == [state |-> "NONE", final |-> FALSE, panicked |-> FALSE, gas |-> e.g, limit |-> limit,
+StepObs(e) == [state |-> e.st, final |-> FALSE, panicked |-> FALSE, gas |-> e.g, limit |-> limit,
                refs |-> e.r, walked |-> e.w, cyc |-> e.c, intbits |-> e.b, itemsize |-> e.z,
                idepth |-> e.i, tdepth |-> e.t, checked |-> checked, onbnd |-> e.k]
 FinalObs(e) == [state |-> e.st, final |-> TRUE, panicked |-> e.p, gas |-> e.g, limit |-> limit,
